@@ -312,6 +312,23 @@ func (l *lab) mutants(k labKind, base []byte) []labMutant {
 		tx.Signatures[0], tx.Signatures[1] = tx.Signatures[1], tx.Signatures[0]
 		return true
 	})
+	// one required signer's genuine signature copied into ANOTHER required signer's slot: the count is right and
+	// every entry is a valid signature of a required signer, but one required signer has not signed at all
+	for i := 0; i < len(k.Signers); i++ {
+		for j := 0; j < len(k.Signers); j++ {
+			if i == j {
+				continue
+			}
+			i, j := i, j
+			add(fmt.Sprintf("sig.slot%d:=slot%d", j, i), "sig", func(tx *action.SignedTx) bool {
+				if len(tx.Signatures) <= i || len(tx.Signatures) <= j {
+					return false
+				}
+				tx.Signatures[j] = tx.Signatures[i]
+				return true
+			})
+		}
+	}
 	add("sig.key-algorithm", "sig", func(tx *action.SignedTx) bool {
 		p := tx.Signatures[0].Signer
 		if p.KeyType == keys.SECP256K1 {
